@@ -8,9 +8,6 @@ in which the threads happen to execute them; each block starts from a freshly ze
 namespace Adept.Tape
 variable {R : Type} [CommRing R] [DecidableEq R]
 
-/-- number of blocks of the OpenMP loops -/
-def nBlocks (W n : Nat) : Nat := (n + W - 1) / W
-
 /-- The `⌈n/W⌉` blocks, the last one of size `n % W` when that is non-zero, tile `[0, n)` exactly. -/
 theorem C13_omp_blocks_cover (W n : Nat) (hW : 0 < W) :
     (∀ j, j < n → ∃ ib, ib < nBlocks W n ∧ W * ib ≤ j ∧ j < W * ib + ompBlockSize W n (nBlocks W n) ib) ∧
